@@ -377,3 +377,116 @@ func VerifC02Link(v *verifrt.T) {
 	v.Assert(err2 != nil && len(bsock.writes) == 1, "C02.link.alias-is-per-connection")
 	v.Observe("bw", uint64(len(bsock.writes)))
 }
+
+// VerifC02Packets: the packet-level half of the statement - what the client is *answered*.
+// One SUBSCRIBE (one or two topics), UNSUBSCRIBE or PUBLISH packet through the real
+// Conn.onReceive, each topic keyed by a key that allows the operation or by one that does
+// not: the acknowledgement carries the request's message id; a SUBACK has one return code
+// per topic, 0x80 exactly for the refused ones; every refused topic is answered with one
+// error packet on emitter/error/ and changes nothing; an accepted PUBLISH reaches the
+// subscriber once, a refused one does not; PUBACK exactly for QoS > 0.
+func VerifC02Packets(v *verifrt.T) {
+	e := c08new(v)
+	good := security.Key(make([]byte, 24))
+	good.SetMaster(1)
+	good.SetContract(7)
+	good.SetSignature(9)
+	good.SetPermissions(security.AllowReadWrite)
+	good.SetTarget("a/")
+	bad := append(security.Key(nil), good...)
+	bad.SetPermissions(security.AllowLoad) // valid key, wrong permission
+	names := []string{e.ciph.add(good), e.ciph.add(bad)}
+	a, asock := hconn(e.svc, 0)
+	b, bsock := hconn(e.svc, 1)
+	v.Assert(e.ps.OnSubscribe(b, []byte(names[0]+"/a/")) == nil, "C02.pkt.env")
+	mid := v.U16("mid")
+	kind := v.Choice(3, "kind")
+	ntopics := 1
+	if kind == 0 {
+		ntopics += v.Choice(2, "two")
+	}
+	var refused [2]bool
+	var topics []mqtt.TopicQOSTuple
+	for i := 0; i < ntopics; i++ {
+		refused[i] = v.Bool("badkey", i)
+		k := names[0]
+		if refused[i] {
+			k = names[1]
+		}
+		topics = append(topics, mqtt.TopicQOSTuple{Topic: []byte(k + "/a/"), Qos: v.U8("tqos", i) & 1})
+	}
+	qos := v.U8("qos") & 1
+	count0 := e.trie.Count()
+	var err error
+	switch kind {
+	case 0:
+		err = a.onReceive(&mqtt.Subscribe{Header: mqtt.Header{QOS: 1}, MessageID: mid, Subscriptions: topics})
+	case 1:
+		err = a.onReceive(&mqtt.Unsubscribe{Header: mqtt.Header{QOS: 1}, MessageID: mid, Topics: topics})
+	case 2:
+		err = a.onReceive(&mqtt.Publish{Header: mqtt.Header{QOS: qos}, MessageID: mid, Topic: topics[0].Topic, Payload: []byte{0x42}})
+	}
+	v.Reach("packet-served")
+	v.Assert(err == nil, "C02.pkt.connection-stays-up")
+	// what A was sent back
+	nerr, nack := 0, 0
+	nrefused := 0
+	for i := 0; i < ntopics; i++ {
+		if refused[i] {
+			nrefused++
+		}
+	}
+	for _, w := range asock.writes {
+		p, derr := mqtt.DecodePacket(bytes.NewReader(w), 65536)
+		v.Assert(derr == nil, "C02.pkt.reply-well-formed")
+		switch r := p.(type) {
+		case *mqtt.Publish:
+			if bytes.Equal(r.Topic, []byte("emitter/error/")) {
+				nerr++
+			} else {
+				v.Assert(kind == 2 && !refused[0], "C02.pkt.no-unrequested-delivery") // (me: the publisher does not hold a subscription)
+			}
+		case *mqtt.Suback:
+			nack++
+			v.Assert(kind == 0 && r.MessageID == mid && len(r.Qos) == ntopics, "C02.pkt.suback-matches-request")
+			for i := 0; i < ntopics && i < len(r.Qos); i++ {
+				if refused[i] {
+					v.Assert(r.Qos[i] == 0x80, "C02.pkt.refused-topic-is-flagged")
+				} else {
+					v.Assert(r.Qos[i] == topics[i].Qos, "C02.pkt.accepted-topic-gets-its-qos")
+				}
+			}
+		case *mqtt.Unsuback:
+			nack++
+			v.Assert(kind == 1 && r.MessageID == mid, "C02.pkt.unsuback-matches-request")
+		case *mqtt.Puback:
+			nack++
+			v.Assert(kind == 2 && qos > 0 && r.MessageID == mid, "C02.pkt.puback-matches-request")
+		default:
+			v.Assert(false, "C02.pkt.unexpected-reply")
+		}
+	}
+	v.Assert(nerr == nrefused, "C02.pkt.one-error-reply-per-refused-request")
+	switch kind {
+	case 0:
+		v.Assert(nack == 1, "C02.pkt.acknowledged-once")
+		held := 0
+		for i := 0; i < ntopics; i++ {
+			if !refused[i] {
+				held = 1
+			}
+		}
+		v.Assert(e.trie.VerifHolds(a) == held && e.trie.Count() == count0+held, "C02.pkt.subscribed-exactly-where-accepted")
+		v.Assert(len(bsock.writes) == 0, "C02.pkt.no-delivery-without-publish")
+	case 1:
+		v.Assert(nack == 1 && e.trie.Count() == count0 && e.trie.VerifHolds(b) == 1, "C02.pkt.unsubscribe-touches-only-own")
+	case 2:
+		v.Assert(nack == int(qos), "C02.pkt.puback-iff-qos")
+		if refused[0] {
+			v.Assert(len(bsock.writes) == 0, "C02.pkt.refused-publish-delivers-nothing")
+		} else {
+			v.Assert(len(bsock.writes) == 1, "C02.pkt.accepted-publish-delivered-once")
+		}
+	}
+	v.Observe("replies", uint64(len(asock.writes)))
+}
